@@ -40,6 +40,7 @@ types, assume_specifications, spec functions, lemmas):
   //@continue_to_else <ordinal>      in the body of the n-th loop (a `for`), `if COND { continue; } REST` becomes `if COND {} else { REST }`
                                       (Verus' for-loops do not support `continue`; same control flow) - DESIGN 9.2 rule 12
   //@loopbody <ordinal> | <text>     ghost/proof line placed right after the opening brace of the n-th loop's body (erased code)
+  //@loopend <ordinal> | <text>      ghost/proof line placed right before the closing brace of the n-th loop's body (fall-through end of an iteration; erased code)
   //@before <needle> | <text>        ghost/proof line placed before the statement that starts with <needle> (erased code)
   //@atend | <text>                  ghost/proof line placed before the closing brace of the body (fall-through exit only; erased code)
   //@ghost | <text>                  (ghost/proof line placed right after the opening brace of the body; erased code)
@@ -527,9 +528,10 @@ def expand(template_path, repo='/repo'):
             clauses, loops, loopvars, ghosts, dropstmts, c2e, loopbodies, atend, befores = [], {}, {}, [], [], [], {}, [], []
             lifts, lifted_out = [], []
             okmaps = []
+            loopends = {}
             while i + 1 < len(tpl) and (tpl[i + 1].strip().startswith('//@|') or tpl[i + 1].strip().startswith('//@loop')
                                         or tpl[i + 1].strip().startswith('//@ghost') or tpl[i + 1].strip().startswith('//@dropstmt') or tpl[i + 1].strip().startswith('//@atend') or tpl[i + 1].strip().startswith('//@before')
-                                        or tpl[i + 1].strip().startswith('//@continue_to_else') or tpl[i + 1].strip().startswith('//@lift') or tpl[i + 1].strip().startswith('//@okmap')):
+                                        or tpl[i + 1].strip().startswith('//@continue_to_else') or tpl[i + 1].strip().startswith('//@loopend') or tpl[i + 1].strip().startswith('//@lift') or tpl[i + 1].strip().startswith('//@okmap')):
                 i += 1
                 t = tpl[i].strip()
                 if t.startswith('//@|'):
@@ -555,6 +557,9 @@ def expand(template_path, repo='/repo'):
                     atend.append('        ' + t.split('|', 1)[1].strip())
                 elif t.startswith('//@ghost'):
                     ghosts.append('        ' + t.split('|', 1)[1].strip())
+                elif t.startswith('//@loopend'):
+                    mm = re.match(r'//@loopend\s+(\d+)\s*\|(.*)$', t)
+                    loopends.setdefault(int(mm.group(1)), []).append('            ' + mm.group(2).strip())
                 elif t.startswith('//@loopbody'):
                     mm = re.match(r'//@loopbody\s+(\d+)\s*\|(.*)$', t)
                     loopbodies.setdefault(int(mm.group(1)), []).append('            ' + mm.group(2).strip())
@@ -628,6 +633,12 @@ def expand(template_path, repo='/repo'):
             for ordinal in c2e:
                 body = _continue_to_else(body, ordinal, name)
                 side.setdefault('normalized_loops', []).append('%s: loop %d: `if C { continue; } REST` -> `if C {} else { REST }`' % (name, ordinal))
+            for ordinal in sorted(loopends, reverse=True):
+                lb = _loop_bodies(body)
+                if ordinal < 1 or ordinal > len(lb):
+                    raise CutError('fn %s: loopend ordinal %d not found' % (name, ordinal))
+                cb_ = lb[ordinal - 1][2]
+                body = body[:cb_] + '\n'.join(loopends[ordinal]) + '\n        ' + body[cb_:]
             for ordinal in sorted(loopbodies, reverse=True):
                 lb = _loop_bodies(body)
                 if ordinal < 1 or ordinal > len(lb):
